@@ -63,36 +63,28 @@ def termLoop (b : Nat) : Nat → Nat → Bool
 
 def terminates (b den : Nat) : Bool := termLoop b (den + 1) den
 
-structure NRState where
-  cur : Nat
-  i : Nat
-  zeros : Nat
-  started : Bool
-  out : List Char      -- reversed
-deriving Repr
-
 /-- `format_nonrecurring`: digits of `cur/den` after the point until the value is exhausted or the limit is
-reached; `intTxt` is the already formatted integer part, `neg`/`intZero` decide the sign.
+reached; `intTxt` is the already formatted integer part, `neg`/`intZero` decide the sign.  Loop state: the current
+numerator, the digit index `i`, the number of pending zeros, whether anything has been written, the text so far (reversed).
 Returns (sign is negative, text, exact). -/
 def nonrecLoop (b den : Nat) (md : MaxDigits) (sep : Char) (intTxt : List Char) (neg intZero : Bool) :
-    Nat → NRState → Bool × List Char × Bool
-  | 0, s => (neg, s.out.reverse, s.cur == 0)
-  | fuel + 1, s =>
-    let stop := s.cur == 0 || md == .dp s.i || md == .ign s.i
+    Nat → Nat → Nat → Nat → Bool → List Char → Bool × List Char × Bool
+  | 0, cur, _, _, _, out => (neg, out.reverse, cur == 0)
+  | fuel + 1, cur, i, zeros, started, out =>
+    let stop := cur == 0 || md == .dp i || md == .ign i
     if stop then
-      if s.started then (neg, s.out.reverse, s.cur == 0)
-      else (neg && !intZero, (intTxt.reverse ++ s.out).reverse, s.cur == 0)
+      if started then (neg, out.reverse, cur == 0)
+      else (neg && !intZero, (intTxt.reverse ++ out).reverse, cur == 0)
     else
-      let digit := s.cur * b / den
-      let next := s.cur * b - digit * den
+      let digit := cur * b / den
+      let next := cur * b - digit * den
       if digit = 0 then
-        nonrecLoop b den md sep intTxt neg intZero fuel
-          { s with cur := next, zeros := s.zeros + 1, i := if s.i == 0 && (match md with | .ign _ => true | _ => false) then s.i else s.i + 1 }
+        nonrecLoop b den md sep intTxt neg intZero fuel next
+          (if i == 0 && (match md with | .ign _ => true | _ => false) then i else i + 1) (zeros + 1) started out
       else
-        let out0 := if s.started then s.out else sep :: (intTxt.reverse ++ s.out)
-        let out1 := List.replicate s.zeros '0' ++ out0
-        nonrecLoop b den md sep intTxt neg intZero fuel
-          { cur := next, i := s.i + 1, zeros := 0, started := true, out := digitChar digit :: out1 }
+        let out0 := if started then out else sep :: (intTxt.reverse ++ out)
+        let out1 := List.replicate zeros '0' ++ out0
+        nonrecLoop b den md sep intTxt neg intZero fuel next (i + 1) 0 true (digitChar digit :: out1)
 
 /-- remainder after `k` long-division steps starting from `r` -/
 def remAt (b den r : Nat) : Nat → Nat
@@ -156,7 +148,7 @@ def fmtRat (o : Opts) (neg : Bool) (num den : Nat) : List Char × Bool :=
   let r := num % den
   if md != .all || term then
     let lim := match md with | .all => 0 | .dp n => n | .ign n => n
-    let (sg, t, ex) := nonrecLoop b den md o.sep it neg (ip == 0) (den + lim + 2) ⟨r, 0, 0, false, []⟩
+    let (sg, t, ex) := nonrecLoop b den md o.sep it neg (ip == 0) (den + lim + 2) r 0 0 false []
     (signed sg t, iex && ex)
   else
     match findCycle b den r with
